@@ -8,6 +8,8 @@ pub enum Ev {
     /// dc credit avail drain echo
     F(Option<u32>, Option<u32>, Option<u32>, bool, bool),
     S,
+    /// the non-waiting TryConsume::try_consume
+    T,
 }
 
 #[derive(Clone, Debug)]
@@ -31,6 +33,7 @@ impl Case {
                     b(*echo)
                 ),
                 Ev::S => "S".to_string(),
+                Ev::T => "T".to_string(),
             })
             .collect();
         format!("c08 {} | {}", self.init_dc, evs.join(" ; "))
@@ -52,6 +55,7 @@ impl Case {
                     *echo == "1",
                 )),
                 ["S"] => evs.push(Ev::S),
+                ["T"] => evs.push(Ev::T),
                 _ => return None,
             }
         }
@@ -124,6 +128,34 @@ pub fn run_case(c: &Case) -> (String, Vec<String>) {
                 }
                 trace.push_str(&format!("R {}", flow_str(&reply)));
             }
+            Ev::T => {
+                // the non-waiting path (TryConsume::try_consume, used when a transaction is rolled back on drop): either one
+                // credit is taken exactly as by a send, or nothing changes
+                let before = st.counters();
+                match st.sender_try_consume_now(1) {
+                    Ok(tag) => {
+                        let t = u32::from_be_bytes(tag);
+                        if t.wrapping_sub(base) >= limit {
+                            viol.push(format!("credit-overrun: try_consume took delivery-count {}, receiver's limit is [{} , +{})", t, base, limit));
+                        }
+                        let k = st.counters();
+                        if t != before.delivery_count || k.delivery_count != before.delivery_count.wrapping_add(1) || k.link_credit != before.link_credit.wrapping_sub(1) {
+                            viol.push("one-credit: try_consume did not consume exactly one credit".into());
+                        }
+                        trace.push_str(&format!("T {}", t));
+                    }
+                    Err(_) => {
+                        let k = st.counters();
+                        if k.delivery_count != before.delivery_count || k.link_credit != before.link_credit {
+                            viol.push(format!(
+                                "one-credit: a refused try_consume changed the link state (delivery-count {} -> {}, credit {} -> {})",
+                                before.delivery_count, k.delivery_count, before.link_credit, k.link_credit
+                            ));
+                        }
+                        trace.push_str("TFAIL");
+                    }
+                }
+            }
             Ev::S => {
                 let before = st.counters();
                 match st.sender_try_consume(1) {
@@ -183,7 +215,10 @@ pub fn gen_case(r: &mut Rng, max_len: u64) -> Case {
     let mut evs = Vec::new();
     let mut sent: u32 = 0;
     for _ in 0..n {
-        if r.chance(55, 100) {
+        if r.chance(10, 100) {
+            evs.push(Ev::T);
+            sent = sent.wrapping_add(1);
+        } else if r.chance(50, 90) {
             evs.push(Ev::S);
             sent = sent.wrapping_add(1);
         } else {
@@ -215,6 +250,7 @@ pub fn run(seed: u64, n: u64, thorough: bool, corpus: &[String], dir: &str) {
         for e in &c.evs {
             match e {
                 Ev::S => out.count("ev_send"),
+                Ev::T => out.count("ev_try_consume"),
                 Ev::F(_, _, _, true, _) => out.count("ev_flow_drain"),
                 Ev::F(None, ..) => out.count("ev_flow_unset_dc"),
                 Ev::F(_, None, ..) => out.count("ev_flow_unset_credit"),
@@ -243,6 +279,8 @@ pub fn run(seed: u64, n: u64, thorough: bool, corpus: &[String], dir: &str) {
         let c = gen_case(&mut r, if thorough { 60 } else { 30 });
         do_case(c, &mut out);
     }
+    // the wake-up of a pending send by flows of every shape (direct oracle only: no case lines for the model)
+    wake_cases(&mut out);
     out.finish(dir);
 }
 
@@ -250,6 +288,51 @@ pub fn run(seed: u64, n: u64, thorough: bool, corpus: &[String], dir: &str) {
 /// One iteration: credit 0, one task awaits `consume(1)`, another applies one grant
 /// of credit 1 after a rendezvous; a consume still pending long after the grant while
 /// the credit is there, and which an extra notify_waiters() releases, is a lost wake-up.
+/// Deterministic wake-up cases (single-threaded runtime, paused clock): a consume(1) is pending, then ONE flow of a given
+/// shape is produced; whenever the flow leaves the link with credit >= 1 the pending consume must complete (direct oracle,
+/// class c08-blocked-send-not-woken).  Covers every combination of echo / drain / delivery-count / credit - the grant that is
+/// also *answered* (echo) included.
+pub fn wake_cases(out: &mut Outputs) {
+    use fe2o3_amqp::verif::VLinkFlow;
+    let rt = tokio::runtime::Builder::new_current_thread().enable_all().start_paused(true).build().unwrap();
+    for echo in [false, true] {
+        for drain in [false, true] {
+            for dc in [None, Some(0u32)] {
+                for cr in [Some(1u32), Some(3), Some(0), None] {
+                    let line = format!("c08wake echo={} drain={} dc={:?} credit={:?}", echo as u8, drain as u8, dc, cr);
+                    let (woken, credit_after) = rt.block_on(async {
+                        let (consumer, mut producer) = fe2o3_amqp::verif::wake_pair(0);
+                        let consumer = std::sync::Arc::new(consumer);
+                        let c2 = consumer.clone();
+                        let waiter = tokio::spawn(async move { c2.consume(1).await });
+                        tokio::time::sleep(std::time::Duration::from_millis(1)).await;
+                        let before = consumer.counters().link_credit;
+                        let _ = producer.produce(VLinkFlow { handle: 0, delivery_count: dc, link_credit: cr, available: None, drain, echo }).await;
+                        // what the flow left on the link, read before the waiter may take it
+                        let after_flow = consumer.counters().link_credit;
+                        tokio::time::sleep(std::time::Duration::from_millis(5)).await;
+                        let woken = waiter.is_finished();
+                        waiter.abort();
+                        let _ = before;
+                        (woken, after_flow)
+                    });
+                    out.count("wake_cases");
+                    if credit_after >= 1 && !woken {
+                        out.violation(
+                            "c08-blocked-send-not-woken",
+                            &format!("c08-blocked-send-not-woken: a send waiting for credit was not woken by a flow that left link-credit {} ({})", credit_after, line),
+                            &line,
+                        );
+                    }
+                    if credit_after >= 1 {
+                        out.nontrivial(&line);
+                    }
+                }
+            }
+        }
+    }
+}
+
 pub fn run_wake(seed: u64, secs: u64, dir: &str) {
     use std::sync::atomic::{AtomicUsize, Ordering};
     use std::sync::Arc;
